@@ -27,8 +27,8 @@ def run(ctx):
     rnd = random.Random(ctx.seed)
     tabs, small = scenarios(ctx, "Enum_Resync.cfg" if q else "Enum_Resync_thorough.cfg", None)
     rnd.shuffle(small)
-    small = small[:110 if q else 1300]
-    tabs2, big = scenarios(ctx, "Sim_Resync.cfg", 130 if q else 900)
+    small = small[:110 if q else 1000]
+    tabs2, big = scenarios(ctx, "Sim_Resync.cfg", 130 if q else 700)
     tabs.update(tabs2)
     scns = [dict(s, id=i) for i, s in enumerate(small + big)]
     jobs = [{"id": s["id"], "admch": s["adm"]["ch"], "admro": s["adm"]["ro"], "steps": expand(s, tabs)} for s in scns]
